@@ -303,7 +303,7 @@ class Atoms:
         # all extra_*_fields will be appended to and deleted from, even when empty, so, e.g. there may be a numpy array
         # of shape (26,0) where there are 26 bonds and 0 columns
         self.extra_atom_fields = shaped_fields(extra_atom_fields, (len(self.atom_types), len(extra_atom_labels)))
-        self.extra_bond_fields = shaped_fields(extra_bond_fields, (len(self.bond_types), len(extra_angle_labels)))
+        self.extra_bond_fields = shaped_fields(extra_bond_fields, (len(self.bond_types), len(extra_bond_labels)))
         self.extra_angle_fields = shaped_fields(extra_angle_fields, (len(self.angle_types), len(extra_angle_labels)))
         self.extra_dihedral_fields = shaped_fields(extra_dihedral_fields, (len(self.dihedral_types), len(extra_dihedral_labels)))
         self.extra_improper_fields = shaped_fields(extra_improper_fields, (len(self.improper_types), len(extra_improper_labels)))
